@@ -28,14 +28,16 @@
 (*   vec  0 scalar, 1 vectorised (std::vector of the type)                 *)
 (*   var  name of the variable it sets                                     *)
 (*   proc "set" (KeyParser::set_variable) "start" "stop" "nothing" or the  *)
-(*        name of a call-back that calls set_variable and then ApplyHook   *)
+(*        name of a call-back of a derived class (ApplyHook)               *)
 (*   vals (enum only) the list of allowed values                           *)
 (* A machine state is [status, km, al, vars, err].                         *)
+(*                                                                         *)
+(* TLC note: evaluation cost grows with the depth of operator recursion    *)
+(* (context chains), so the folds over lines use SequencesExt!FoldLeft     *)
+(* (iterative Java override) and everything read from the TEXT of a line   *)
+(* is computed once per line (ParseLine) before the machine runs.          *)
 (***************************************************************************)
-EXTENDS Integers, Sequences, FiniteSets, TLC
-
-\* TLC evaluates a LET definition again at every use; With(x, F) evaluates x ONCE and applies F to the value
-With(x, F(_)) == CHOOSE y \in {F(v) : v \in {x}} : TRUE
+EXTENDS Integers, Sequences, FiniteSets, TLC, SequencesExt
 
 (* ------------------------------ characters ------------------------------ *)
 Ch(s, i) == SubSeq(s, i, i)
@@ -163,31 +165,33 @@ ReadList(t, dbl) == LET f == FirstNotIn(t, Blank, 1) IN
                     ELSE LET e == ElemAt(t, f, dbl) IN IF e.ok THEN Val(<<e.v>>) ELSE NoValue
 \* a list of strings is present as soon as anything follows the '=' (content not modelled)
 ReadSList(t) == IF FirstNotIn(t, Blank, 1) = 0 THEN NoValue ELSE Val("S")
-\* position of a value in an enumerated list, compared after standardisation; 0 when not allowed
-\* (the code stores -1; the spec stores index-in-list - 1 like the code, i.e. -1 for "not in the list")
-EnumIndex(v, vals) == IF \E i \in 1..Len(vals) : Standardise(vals[i]) = Standardise(v)
-                      THEN (CHOOSE i \in 1..Len(vals) : Standardise(vals[i]) = Standardise(v) /\ \A j \in 1..(i - 1) : Standardise(vals[j]) # Standardise(v)) - 1
-                      ELSE -1
-
-ReadValue(e, rest) ==
-  IF ~rest.has THEN NoValue        \* no ':=' on the line: the key has no value
-  ELSE CASE e.t = "int" -> ReadInt(rest.t)
-         [] e.t = "bool" -> LET r == ReadInt(rest.t) IN IF r.none THEN r ELSE Val(r.v # 0)   \* "A non-zero value will be assumed to mean 'true'"
-         [] e.t = "ulong" -> ReadULong(rest.t)
-         [] e.t = "double" -> ReadDouble(rest.t)
-         [] e.t = "string" -> ReadString(rest.t)
-         [] e.t = "ilist" -> ReadList(rest.t, FALSE)
-         [] e.t = "dlist" -> ReadList(rest.t, TRUE)
-         [] e.t = "slist" -> ReadSList(rest.t)
-         [] e.t = "enum" -> LET r == ReadString(rest.t) IN IF r.none THEN r ELSE Val(EnumIndex(r.v, e.vals))
-         [] OTHER -> NoValue
 
 (* ------------------------------ one line --------------------------------- *)
-ParseLine(s) == [kw |-> Standardise(GetKeyword(s)), idx |-> GetIndex(s), rest |-> Rest(s)]
-
 NoErr == ""
+\* everything the parser reads from the text of one logical line: standardised keyword, index, and
+\* the value as each value type would read it (sval: the string value standardised, for enumerations)
+ParseLine(s) ==
+  LET rest == Rest(s)
+      str == IF rest.has THEN ReadString(rest.t) ELSE NoValue IN
+  [text |-> s, kw |-> Standardise(GetKeyword(s)), idx |-> GetIndex(s), has |-> rest.has,
+   vals |-> IF ~rest.has THEN [int |-> NoValue, ulong |-> NoValue, double |-> NoValue, string |-> NoValue,
+                                ilist |-> NoValue, dlist |-> NoValue, slist |-> NoValue]     \* no ':=' on the line: the key has no value
+            ELSE [int |-> ReadInt(rest.t), ulong |-> ReadULong(rest.t), double |-> ReadDouble(rest.t), string |-> str,
+                  ilist |-> ReadList(rest.t, FALSE), dlist |-> ReadList(rest.t, TRUE), slist |-> ReadSList(rest.t)],
+   sval |-> IF str.none THEN "" ELSE Standardise(str.v)]
+\* the value of parsed line p for key map entry e
+ValueOf(e, p) ==
+  CASE e.t = "bool" -> (IF p.vals.int.none THEN NoValue ELSE Val(p.vals.int.v # 0))   \* "A non-zero value will be assumed to mean 'true'"
+    [] e.t = "enum" -> (IF p.vals.string.none THEN NoValue
+                        ELSE Val(IF \E i \in 1..Len(e.svals) : e.svals[i] = p.sval
+                                 THEN (CHOOSE i \in 1..Len(e.svals) : e.svals[i] = p.sval /\ \A j \in 1..(i - 1) : e.svals[j] # p.sval) - 1
+                                 ELSE -1))                                            \* -1: "should have been one of ..."
+    [] e.t = "none" -> NoValue
+    [] OTHER -> p.vals[e.t]
+
 \* KeyParser::set_variable for entry e and parsed line p
-SetVarV(st, e, p, v) ==
+SetVar(st, e, p) ==
+  LET v == ValueOf(e, p) IN
   IF v.none THEN st                                                  \* IgnoreBadValue: "if (!keyword_has_a_value) return"
   ELSE IF p.idx.big THEN [st EXCEPT !.err = "IndexNotRepresentable"]  \* an index that is no int cannot be "the index given"
   ELSE IF p.idx.n = 0 THEN                                           \* IndexZeroIsNoIndex
@@ -196,38 +200,209 @@ SetVarV(st, e, p, v) ==
   ELSE IF e.vec = 0 THEN [st EXCEPT !.err = "UnexpectedIndex"]       \* "encountered unexpected vectorisation of key"
   ELSE IF p.idx.n < 1 \/ p.idx.n > Len(st.vars[e.var]) THEN [st EXCEPT !.err = "IndexOutOfRange"]   \* "the list ... has to be resized"
   ELSE [st EXCEPT !.vars[e.var][p.idx.n] = v.v]                      \* "vectorised keys are stored at the index given"
-SetVar(st, e, p) == With(ReadValue(e, p.rest), LAMBDA v : SetVarV(st, e, p, v))
 
 Resolve(al, kw) == IF kw \in DOMAIN al THEN al[kw] ELSE kw
 
+(* --------------------------- key maps and states -------------------------- *)
+NewState(km, al, vars) == [status |-> "end", km |-> km, al |-> al, vars |-> vars, err |-> NoErr]
+Entry(t, vec, var, proc) == [t |-> t, vec |-> vec, var |-> var, proc |-> proc, vals |-> <<>>, svals |-> <<>>]
+EnumEntry(var, proc, vals) == [t |-> "enum", vec |-> 0, var |-> var, proc |-> proc, vals |-> vals,
+                               svals |-> [i \in 1..Len(vals) |-> Standardise(vals[i])]]      \* values are compared after standardisation
+KM(pairs) == [k \in {Standardise(pairs[i][1]) : i \in 1..Len(pairs)} |->
+                 pairs[CHOOSE i \in 1..Len(pairs) : Standardise(pairs[i][1]) = k /\ \A j \in (i + 1)..Len(pairs) : Standardise(pairs[j][1]) # k][2]]
+
+(* -------------------- call-backs of the Interfile headers ---------------- *)
+\* (InterfileHeader.cxx; they are processing functions of keys of the Interfile key maps below)
+Resize(q, n, fill) == [i \in 1..n |-> IF i <= Len(q) THEN q[i] ELSE fill]
+MaxVector == 100000      \* a vector length beyond this is "unbounded allocation from a small input"
+\* std::vector::resize with a length taken from the header: a negative length is an exception
+\* (length_error), an enormous one must be refused as well
+ResizeErr(n) == IF n < 0 THEN "NegativeLength" ELSE IF n > MaxVector THEN "HugeLength" ELSE NoErr
+NumDatasets(v) == v.num_time_frames * v.num_image_data_types
+SmallInt(n) == n > -40000 /\ n < 40000
+Merge(f, g) == [k \in DOMAIN f \cup DOMAIN g |-> IF k \in DOMAIN g THEN g[k] ELSE f[k]]
+TypeOfDataValues == <<"Static", "Dynamic", "Tomographic", "Curve", "ROI", "PET", "Other">>
+PETDataTypeValues == <<"Emission", "Transmission", "Blank", "AttenuationCorrection", "Normalisation", "Image">>
+\* keys added by set_type_of_data for "PET", and by set_version_specific_keys for "STIR3.0"
+PETKeys == KM(<< <<"PET STUDY (Emission data)", Entry("none", 0, "", "nothing")>>,
+                 <<"PET STUDY (Image data)", Entry("none", 0, "", "nothing")>>,
+                 <<"PET STUDY (General)", Entry("none", 0, "", "nothing")>>,
+                 <<"PET data type", EnumEntry("PET_data_type", "set", PETDataTypeValues)>>,
+                 <<"process status", Entry("none", 0, "", "nothing")>>,
+                 <<"IMAGE DATA DESCRIPTION", Entry("none", 0, "", "nothing")>>,
+                 <<"data offset in bytes", Entry("ulong", 1, "data_offset", "set")>> >>)
+STIR3Keys == KM(<< <<"energy window lower level", Entry("double", 0, "junk", "set")>>,
+                   <<"energy window upper level", Entry("double", 0, "junk", "set")>> >>)
+FramesResize(st) ==
+  LET v == st.vars
+      nd == IF SmallInt(v.num_time_frames) /\ SmallInt(v.num_image_data_types) THEN NumDatasets(v) ELSE MaxVector + 1
+      er == IF ResizeErr(nd) # NoErr THEN ResizeErr(nd) ELSE ResizeErr(v.num_time_frames) IN
+  IF er # NoErr THEN [st EXCEPT !.err = er]
+  ELSE [st EXCEPT !.vars.image_scaling_factors = [i \in 1..nd |-> <<"D">>],       \* every dataset gets ONE factor again
+                  !.vars.data_offset = Resize(v.data_offset, nd, [big |-> FALSE, n |-> 0])]
+\* the part of InterfilePDFSHeader::find_storage_order that sets the data shape; a missing
+\* 'matrix size' entry has no first element (reading it is an out-of-bounds access): err MissingMatrixSize
+FindStorageOrder(st) ==
+  LET v == st.vars
+      nd == v.num_dimensions
+      has(d) == d <= Len(v.matrix_size) /\ Len(v.matrix_size[d]) > 0
+      stop(s) == [s EXCEPT !.status = "end"] IN
+  IF nd # 4 /\ nd # 5 THEN stop(st)
+  ELSE IF nd = 5 /\ v.matrix_labels[5] # "timing positions" THEN stop(st)
+  ELSE IF nd = 5 /\ ~has(5) THEN [st EXCEPT !.err = "MissingMatrixSize"]
+  ELSE LET s1 == [st EXCEPT !.vars.num_timing_poss = IF nd = 5 THEN v.matrix_size[5][1] ELSE 1] IN
+       IF v.matrix_labels[1] # "tangential coordinate" THEN stop(s1)
+       ELSE IF ~has(1) THEN [s1 EXCEPT !.err = "MissingMatrixSize"]
+       ELSE LET s2 == [s1 EXCEPT !.vars.num_bins = v.matrix_size[1][1]] IN
+            IF v.matrix_labels[4] # "segment" THEN stop(s2)
+            ELSE IF ~has(4) THEN [s2 EXCEPT !.err = "MissingMatrixSize"]
+            ELSE LET s3 == [s2 EXCEPT !.vars.num_segments = v.matrix_size[4][1]] IN
+                 IF v.matrix_labels[2] = "axial coordinate" /\ v.matrix_labels[3] = "view"
+                 THEN (IF ~has(3) THEN [s3 EXCEPT !.err = "MissingMatrixSize"]
+                       ELSE [s3 EXCEPT !.vars.num_views = v.matrix_size[3][1], !.vars.num_rings_per_segment = v.matrix_size[2], !.vars.order_found = TRUE])
+                 ELSE IF v.matrix_labels[2] = "view" /\ v.matrix_labels[3] = "axial coordinate"
+                 THEN (IF ~has(2) THEN [s3 EXCEPT !.err = "MissingMatrixSize"]
+                       ELSE [s3 EXCEPT !.vars.num_views = v.matrix_size[2][1], !.vars.num_rings_per_segment = v.matrix_size[3], !.vars.order_found = TRUE])
+                 ELSE stop(s3)
+
+ApplyHook(st, e, p) ==
+  LET s1 == IF e.proc = "resize_segments_and_set" THEN st ELSE SetVar(st, e, p) IN
+  IF s1.err # NoErr THEN s1
+  ELSE LET v == s1.vars IN
+  CASE e.proc = "read_matrix_info" ->
+         LET n == v.num_dimensions IN
+         IF ResizeErr(n) # NoErr THEN [s1 EXCEPT !.err = ResizeErr(n)]
+         ELSE LET s2 == [s1 EXCEPT !.vars.matrix_labels = Resize(v.matrix_labels, n, ""), !.vars.matrix_size = Resize(v.matrix_size, n, <<>>),
+                                   !.vars.pixel_sizes = Resize(v.pixel_sizes, n, "D")] IN
+              IF "first_pixel_offsets" \in DOMAIN v THEN [s2 EXCEPT !.vars.first_pixel_offsets = [i \in 1..n |-> "unset"]] ELSE s2
+    [] e.proc = "read_frames_info" ->
+         LET s2 == FramesResize(s1) IN
+         IF s2.err # NoErr THEN s2
+         ELSE [s2 EXCEPT !.vars.rel_start = Resize(v.rel_start, v.num_time_frames, "D"), !.vars.durations = Resize(v.durations, v.num_time_frames, "D")]
+    [] e.proc = "read_image_data_types" ->
+         LET s2 == FramesResize(s1) IN
+         IF s2.err # NoErr THEN s2
+         ELSE IF ResizeErr(v.num_image_data_types) # NoErr THEN [s2 EXCEPT !.err = ResizeErr(v.num_image_data_types)]
+         ELSE [s2 EXCEPT !.vars.image_data_type_description = Resize(v.image_data_type_description, v.num_image_data_types, "")]
+    [] e.proc = "read_num_energy_windows" ->
+         LET n == v.num_energy_windows IN
+         IF ResizeErr(n) # NoErr THEN [s1 EXCEPT !.err = ResizeErr(n)]
+         ELSE [s1 EXCEPT !.vars.en_low = Resize(v.en_low, n, "D"), !.vars.en_up = Resize(v.en_up, n, "D")]
+    [] e.proc = "set_type_of_data" ->
+         IF v.type_of_data = -1 THEN [s1 EXCEPT !.err = "TypeOfDataUnsupported"]     \* "type_of_data needs to be set to supported value"
+         ELSE IF TypeOfDataValues[v.type_of_data + 1] = "PET"
+         THEN [s1 EXCEPT !.km = Merge(s1.km, PETKeys)]
+         ELSE [s1 EXCEPT !.vars.unmodelled = TRUE]                                    \* other kinds of data: not modelled
+    [] e.proc = "set_version_specific_keys" ->
+         IF v.version_of_keys = "STIR3.0"
+         THEN [s1 EXCEPT !.km = Merge(s1.km, STIR3Keys)]
+         ELSE s1
+    [] e.proc = "set_imaging_modality" ->
+         IF Standardise(v.imaging_modality) \in {"nm", "nucmed", "spect"} THEN [s1 EXCEPT !.vars.unmodelled = TRUE] ELSE s1   \* SPECT reader: not modelled
+    [] e.proc = "set_siemens" -> [s1 EXCEPT !.vars.unmodelled = TRUE]                  \* Siemens reader: not modelled
+    [] e.proc = "set_unmodelled" -> [s1 EXCEPT !.vars.unmodelled = TRUE]
+    [] e.proc = "resize_segments_and_set" ->
+         \* "find_storage_order returns true if already found (or error)"
+         LET s2 == IF v.num_segments < 0 THEN FindStorageOrder(s1) ELSE s1
+             n == s2.vars.num_segments
+             s3 == IF s2.err # NoErr THEN s2
+                   ELSE IF v.num_segments < 0 /\ s2.vars.order_found
+                   THEN (IF ResizeErr(n) # NoErr THEN [s2 EXCEPT !.err = ResizeErr(n)]
+                         ELSE [s2 EXCEPT !.vars.min_ring_difference = Resize(s2.vars.min_ring_difference, n, 0),
+                                         !.vars.max_ring_difference = Resize(s2.vars.max_ring_difference, n, 0)])
+                   ELSE s2 IN
+         IF s3.err # NoErr THEN s3 ELSE IF s3.vars.num_segments >= 0 THEN SetVar(s3, e, p) ELSE s3
+    [] OTHER -> s1
+
+(* ------------------------------ the machine ------------------------------ *)
+\* process_key for one parsed logical line p: map the (alias-resolved, standardised) keyword and call
+\* the entry's processing function
+ProcessP(st, p) ==
+  LET k == Resolve(st.al, p.kw) IN
+  IF k \notin DOMAIN st.km THEN st            \* UnknownKey, Comment (';'), empty line: "do no processing of this key"
+  ELSE LET e == st.km[k] IN
+       CASE e.proc = "start" -> [st EXCEPT !.status = "parsing"]
+         [] e.proc = "stop" -> [st EXCEPT !.status = "end"]
+         [] e.proc = "nothing" -> st
+         [] e.proc = "set" -> SetVar(st, e, p)
+         [] OTHER -> ApplyHook(st, e, p)       \* a call-back of a derived class (it calls set_variable itself)
+Process(st, text) == ProcessP(st, ParseLine(text))
+
 (* --------------------------- the line reader ----------------------------- *)
-\* The input is the sequence L of physical lines and the flag nl (TRUE: the last line is followed by
-\* a newline).  read_line: strip one trailing CR; a line ending in the continuation character '\' is
-\* joined with the next one.  i = next physical line, the stream's eofbit is returned in eof.
+\* The input is a sequence of physical lines, each a record [t |-> text, hasp |-> BOOLEAN, p |-> parse
+\* of t when hasp (memo)], and the flag nl (TRUE: the last line is followed by a newline).
+\* read_line: strip one trailing CR; a line ending in the continuation character '\' is joined with
+\* the next one.  The result is the sequence of LOGICAL lines, each with: eof (the stream's eofbit is
+\* set after reading it), phantom (read at the very end of the input, after the last newline),
+\* contAtEof (the input ended inside a continued line: nothing to append).
 StripCR(s) == IF Len(s) > 0 /\ Ch(s, Len(s)) = "\r" THEN SubSeq(s, 1, Len(s) - 1) ELSE s
 EndsBackslash(s) == Len(s) > 0 /\ Ch(s, Len(s)) = "\\"
 Chop(s) == SubSeq(s, 1, Len(s) - 1)
-RECURSIVE ReadAcc(_, _, _, _)
-ReadAcc(L, nl, i, acc) ==
-  LET avail == i <= Len(L)
-      this == IF avail THEN StripCR(L[i]) ELSE ""
-      eofAfter == IF avail THEN (i = Len(L) /\ ~nl) ELSE TRUE
-      acc2 == acc \o this IN
-  IF EndsBackslash(acc2)
-  THEN IF eofAfter THEN [line |-> Chop(acc2), next |-> i + 1, eof |-> TRUE, phantom |-> FALSE, contAtEof |-> TRUE]   \* ContinuationAtEof: nothing to append
-       ELSE ReadAcc(L, nl, i + 1, Chop(acc2))
-  ELSE [line |-> acc2, next |-> i + 1, eof |-> eofAfter, phantom |-> ~avail /\ acc = "", contAtEof |-> FALSE]
 HasNonBlank(s) == FirstNotIn(s, Blank, 1) # 0
-\* read_and_parse_line: lines consisting of blanks only are skipped, an empty line is not (it is
-\* parsed and has an unknown, empty keyword); EarlyEof: the stream is not good() any more.
-RECURSIVE NextMeaningful(_, _, _, _)
-NextMeaningful(L, nl, i, eof) ==
-  IF eof THEN [early |-> TRUE, line |-> "", next |-> i, eof |-> TRUE, phantom |-> TRUE, contAtEof |-> FALSE]
-  ELSE LET r == ReadAcc(L, nl, i, "") IN
-       IF HasNonBlank(r.line) \/ r.line = ""
-       THEN [early |-> FALSE, line |-> r.line, next |-> r.next, eof |-> r.eof, phantom |-> r.phantom, contAtEof |-> r.contAtEof]
-       ELSE NextMeaningful(L, nl, r.next, r.eof)
+Plain(t) == [t |-> t, hasp |-> FALSE, p |-> 0]
+Logical(PL, nl) ==
+  LET n == Len(PL)
+      step(a, x) ==
+        LET this == StripCR(x.t)
+            eofAfter == (a.k + 1 = n) /\ ~nl
+            joined == a.pend \o this
+            own == a.pend = "" /\ this = x.t /\ x.hasp IN       \* the logical line is this physical line: its memo applies
+        IF EndsBackslash(joined)
+        THEN IF eofAfter
+             THEN [k |-> a.k + 1, pend |-> "", cont |-> FALSE,
+                   out |-> Append(a.out, [line |-> Chop(joined), eof |-> TRUE, phantom |-> FALSE, contAtEof |-> TRUE, hasp |-> FALSE, p |-> 0])]
+             ELSE [k |-> a.k + 1, pend |-> Chop(joined), cont |-> TRUE, out |-> a.out]
+        ELSE [k |-> a.k + 1, pend |-> "", cont |-> FALSE,
+              out |-> Append(a.out, [line |-> joined, eof |-> eofAfter, phantom |-> FALSE, contAtEof |-> FALSE, hasp |-> own, p |-> IF own THEN x.p ELSE 0])]
+      a0 == [k |-> 0, pend |-> "", cont |-> FALSE, out |-> <<>>]
+      fin(a) == IF nl \/ n = 0      \* one more getline at the end of the input: it yields what is pending (nothing: the phantom empty line)
+                THEN Append(a.out, [line |-> a.pend, eof |-> TRUE, phantom |-> ~a.cont, contAtEof |-> FALSE, hasp |-> FALSE, p |-> 0])
+                ELSE a.out IN
+  fin(FoldLeft(step, a0, PL))
 
+\* KeyParser::parse_header over the logical lines.  Accumulator / result: ph "first" (no meaningful
+\* line yet) | "loop" | "done"; verdict "accepted" | "rejected" | "error"; the state; why: the named case
+\* that ended the run; more: only the end of the input stopped the parser; contAtEof.
+RunStep(c, r) ==
+  IF c.ph = "done" THEN c
+  ELSE IF ~HasNonBlank(r.line) /\ r.line # ""
+  THEN \* read_and_parse_line: a line of blanks only is skipped, an empty line is not (it is parsed and
+       \* has an unknown, empty keyword); EarlyEof: the stream is not good() any more: "early EOF" warning
+       IF ~r.eof THEN c
+       ELSE IF c.ph = "first" THEN [c EXCEPT !.ph = "done", !.verdict = "rejected", !.why = "NoInput", !.more = TRUE]
+       ELSE [c EXCEPT !.ph = "done", !.verdict = "accepted", !.why = "EarlyEof", !.more = TRUE, !.st.status = "end"]
+  ELSE LET s2 == ProcessP(c.st, IF r.hasp THEN r.p ELSE ParseLine(r.line)) IN
+       IF s2.err # NoErr THEN [c EXCEPT !.ph = "done", !.verdict = "error", !.why = s2.err, !.st = s2, !.contAtEof = r.contAtEof]
+       ELSE IF s2.status # "parsing"
+       THEN (IF c.ph = "first"      \* FirstLineBeforeStart: the first line is processed whatever it is; "required first keyword not found"
+             THEN [c EXCEPT !.ph = "done", !.verdict = "rejected", !.why = "NoStartKey", !.more = r.phantom, !.st = s2, !.contAtEof = r.contAtEof]
+             ELSE [c EXCEPT !.ph = "done", !.verdict = "accepted", !.why = "StopKey", !.st = s2, !.contAtEof = r.contAtEof])
+       ELSE IF r.eof                \* EofAccept: the stop key is not required
+       THEN [c EXCEPT !.ph = "done", !.verdict = "accepted", !.why = IF c.ph = "first" THEN "EarlyEof" ELSE "EofAccept", !.more = TRUE,
+                      !.st = [s2 EXCEPT !.status = "end"], !.contAtEof = r.contAtEof]
+       ELSE [c EXCEPT !.ph = "loop", !.st = s2]
+RunBase(st0) == [ph |-> "first", verdict |-> "", why |-> "", more |-> FALSE, contAtEof |-> FALSE, st |-> st0]
+\* PL: physical line records; result as described above (ph is always "done": the last logical line has eof)
+ParseHeaderP(st0, PL, nl) == FoldLeft(RunStep, RunBase(st0), Logical(PL, nl))
+ParseHeader(st0, L, nl) == ParseHeaderP(st0, [i \in 1..Len(L) |-> Plain(L[i])], nl)
+
+\* join physical lines into the text handed to the parser
+JoinLines(L, nl) == FoldLeft(LAMBDA a, x : a \o x \o "\n", "", SubSeq(L, 1, Len(L) - 1)) \o (IF Len(L) = 0 THEN "" ELSE L[Len(L)] \o (IF nl THEN "\n" ELSE ""))
+
+(* ------------- the fixed key map of the replay driver (part a) ----------- *)
+TestKM == KM(<< <<"Start Test", Entry("none", 0, "", "start")>>,
+                <<"scalar int", Entry("int", 0, "i", "set")>>,
+                <<"str key", Entry("string", 0, "s", "set")>>,
+                <<"flag", Entry("bool", 0, "flag", "set")>>,
+                <<"list key", Entry("ilist", 0, "list", "set")>>,
+                <<"vec key", Entry("int", 1, "vec", "set")>>,
+                <<"vlist key", Entry("ilist", 1, "vlist", "set")>>,
+                <<"enum key", EnumEntry("en", "set", <<"alpha", "Beta Gamma">>)>>,
+                <<"ignored key", Entry("none", 0, "", "nothing")>>,
+                <<"End Test", Entry("none", 0, "", "stop")>> >>)
+TestAlias == [k \in {"old int", "old vec"} |-> IF k = "old int" THEN "scalar int" ELSE "vec key"]
+TestVars == [i |-> -7, s |-> "init", flag |-> FALSE, list |-> <<9>>, vec |-> <<0, 0, 0>>, vlist |-> << <<>>, <<>> >>, en |-> 0]
+TestInit == NewState(TestKM, TestAlias, TestVars)
 (* ------------------- the line alphabet of the replay (part a) ------------ *)
 \* Physical lines fed to a KeyParser with the fixed key map TestKM below ("size" of the vectorised
 \* key is 3, of the vectorised list key 2).  Every class of line of the design is present: start /
@@ -289,181 +464,14 @@ Alpha == <<
 AlphaIds == 1..Len(Alpha)
 \* lines used at the inner positions of the longest sequences
 CoreIds == {1, 3, 5, 7, 13, 18, 20, 25, 27, 28, 29, 33, 37, 39, 42, 44, 45, 50}
-TextsOf(p) == [k \in 1..Len(p) |-> Alpha[p[k]]]
-\* memo: parse of every alphabet line and of every continued line joined with an alphabet line
+TextsOf(ids) == [k \in 1..Len(ids) |-> Alpha[ids[k]]]
 ContIds == {a \in AlphaIds : EndsBackslash(Alpha[a])}
-MemoTexts == {Alpha[a] : a \in AlphaIds} \cup {StripCR(Alpha[a]) : a \in AlphaIds}
-             \cup {Chop(Alpha[a]) \o StripCR(Alpha[b]) : a \in ContIds, b \in AlphaIds} \cup {Chop(Alpha[a]) : a \in ContIds}
-ParseMemo == [t \in MemoTexts |-> ParseLine(t)]
-Parsed(t) == IF t \in DOMAIN ParseMemo THEN ParseMemo[t] ELSE ParseLine(t)
+\* memo: the parse of every alphabet line
+AlphaParsed == [a \in AlphaIds |-> ParseLine(Alpha[a])]
+AlphaLines(ids) == [k \in 1..Len(ids) |-> [t |-> Alpha[ids[k]], hasp |-> TRUE, p |-> AlphaParsed[ids[k]]]]
+\* the run of the replay driver's parser on the alphabet lines ids
+TestRun(ids, nl) == ParseHeaderP(TestInit, AlphaLines(ids), nl)
 
-(* --------------------------- key maps and states -------------------------- *)
-NewState(km, al, vars) == [status |-> "end", km |-> km, al |-> al, vars |-> vars, err |-> NoErr]
-Entry(t, vec, var, proc) == [t |-> t, vec |-> vec, var |-> var, proc |-> proc, vals |-> <<>>]
-EnumEntry(var, proc, vals) == [t |-> "enum", vec |-> 0, var |-> var, proc |-> proc, vals |-> vals]
-KM(pairs) == [k \in {Standardise(pairs[i][1]) : i \in 1..Len(pairs)} |->
-                 pairs[CHOOSE i \in 1..Len(pairs) : Standardise(pairs[i][1]) = k /\ \A j \in (i + 1)..Len(pairs) : Standardise(pairs[j][1]) # k][2]]
-
-(* -------------------- call-backs of the Interfile headers ---------------- *)
-\* (InterfileHeader.cxx; they are processing functions of keys of the Interfile key maps below)
-Resize(q, n, fill) == [i \in 1..n |-> IF i <= Len(q) THEN q[i] ELSE fill]
-MaxVector == 100000      \* a vector length beyond this is "unbounded allocation from a small input"
-\* std::vector::resize with a length taken from the header: a negative length is an exception
-\* (length_error), an enormous one must be refused as well
-ResizeErr(n) == IF n < 0 THEN "NegativeLength" ELSE IF n > MaxVector THEN "HugeLength" ELSE NoErr
-NumDatasets(v) == v.num_time_frames * v.num_image_data_types
-SmallInt(n) == n > -40000 /\ n < 40000
-AddKeys(km, pairs) == [k \in DOMAIN km \cup {Standardise(pairs[i][1]) : i \in 1..Len(pairs)} |->
-                         IF \E i \in 1..Len(pairs) : Standardise(pairs[i][1]) = k
-                         THEN pairs[CHOOSE i \in 1..Len(pairs) : Standardise(pairs[i][1]) = k /\ \A j \in (i + 1)..Len(pairs) : Standardise(pairs[j][1]) # k][2]
-                         ELSE km[k]]
-TypeOfDataValues == <<"Static", "Dynamic", "Tomographic", "Curve", "ROI", "PET", "Other">>
-PETDataTypeValues == <<"Emission", "Transmission", "Blank", "AttenuationCorrection", "Normalisation", "Image">>
-FramesResize(st) ==
-  LET v == st.vars
-      nd == IF SmallInt(v.num_time_frames) /\ SmallInt(v.num_image_data_types) THEN NumDatasets(v) ELSE MaxVector + 1
-      er == IF ResizeErr(nd) # NoErr THEN ResizeErr(nd) ELSE ResizeErr(v.num_time_frames) IN
-  IF er # NoErr THEN [st EXCEPT !.err = er]
-  ELSE [st EXCEPT !.vars.image_scaling_factors = [i \in 1..nd |-> <<"D">>],       \* every dataset gets ONE factor again
-                  !.vars.data_offset = Resize(v.data_offset, nd, [big |-> FALSE, n |-> 0])]
-\* the part of InterfilePDFSHeader::find_storage_order that sets the data shape; a missing
-\* 'matrix size' entry has no first element (reading it is an out-of-bounds access): err MissingMatrixSize
-FindStorageOrder(st) ==
-  LET v == st.vars
-      nd == v.num_dimensions
-      has(d) == d <= Len(v.matrix_size) /\ Len(v.matrix_size[d]) > 0
-      stop(s) == [s EXCEPT !.status = "end"] IN
-  IF nd # 4 /\ nd # 5 THEN stop(st)
-  ELSE IF nd = 5 /\ v.matrix_labels[5] # "timing positions" THEN stop(st)
-  ELSE IF nd = 5 /\ ~has(5) THEN [st EXCEPT !.err = "MissingMatrixSize"]
-  ELSE LET s1 == [st EXCEPT !.vars.num_timing_poss = IF nd = 5 THEN v.matrix_size[5][1] ELSE 1] IN
-       IF v.matrix_labels[1] # "tangential coordinate" THEN stop(s1)
-       ELSE IF ~has(1) THEN [s1 EXCEPT !.err = "MissingMatrixSize"]
-       ELSE LET s2 == [s1 EXCEPT !.vars.num_bins = v.matrix_size[1][1]] IN
-            IF v.matrix_labels[4] # "segment" THEN stop(s2)
-            ELSE IF ~has(4) THEN [s2 EXCEPT !.err = "MissingMatrixSize"]
-            ELSE LET s3 == [s2 EXCEPT !.vars.num_segments = v.matrix_size[4][1]] IN
-                 IF v.matrix_labels[2] = "axial coordinate" /\ v.matrix_labels[3] = "view"
-                 THEN (IF ~has(3) THEN [s3 EXCEPT !.err = "MissingMatrixSize"]
-                       ELSE [s3 EXCEPT !.vars.num_views = v.matrix_size[3][1], !.vars.num_rings_per_segment = v.matrix_size[2], !.vars.order_found = TRUE])
-                 ELSE IF v.matrix_labels[2] = "view" /\ v.matrix_labels[3] = "axial coordinate"
-                 THEN (IF ~has(2) THEN [s3 EXCEPT !.err = "MissingMatrixSize"]
-                       ELSE [s3 EXCEPT !.vars.num_views = v.matrix_size[2][1], !.vars.num_rings_per_segment = v.matrix_size[3], !.vars.order_found = TRUE])
-                 ELSE stop(s3)
-
-ApplyHook1(s1, e, p) ==
-  IF s1.err # NoErr THEN s1
-  ELSE LET v == s1.vars IN
-  CASE e.proc = "read_matrix_info" ->
-         LET n == v.num_dimensions IN
-         IF ResizeErr(n) # NoErr THEN [s1 EXCEPT !.err = ResizeErr(n)]
-         ELSE LET s2 == [s1 EXCEPT !.vars.matrix_labels = Resize(v.matrix_labels, n, ""), !.vars.matrix_size = Resize(v.matrix_size, n, <<>>),
-                                   !.vars.pixel_sizes = Resize(v.pixel_sizes, n, "D")] IN
-              IF "first_pixel_offsets" \in DOMAIN v THEN [s2 EXCEPT !.vars.first_pixel_offsets = [i \in 1..n |-> "unset"]] ELSE s2
-    [] e.proc = "read_frames_info" ->
-         LET s2 == FramesResize(s1) IN
-         IF s2.err # NoErr THEN s2
-         ELSE [s2 EXCEPT !.vars.rel_start = Resize(v.rel_start, v.num_time_frames, "D"), !.vars.durations = Resize(v.durations, v.num_time_frames, "D")]
-    [] e.proc = "read_image_data_types" ->
-         LET s2 == FramesResize(s1) IN
-         IF s2.err # NoErr THEN s2
-         ELSE IF ResizeErr(v.num_image_data_types) # NoErr THEN [s2 EXCEPT !.err = ResizeErr(v.num_image_data_types)]
-         ELSE [s2 EXCEPT !.vars.image_data_type_description = Resize(v.image_data_type_description, v.num_image_data_types, "")]
-    [] e.proc = "read_num_energy_windows" ->
-         LET n == v.num_energy_windows IN
-         IF ResizeErr(n) # NoErr THEN [s1 EXCEPT !.err = ResizeErr(n)]
-         ELSE [s1 EXCEPT !.vars.en_low = Resize(v.en_low, n, "D"), !.vars.en_up = Resize(v.en_up, n, "D")]
-    [] e.proc = "set_type_of_data" ->
-         IF v.type_of_data = -1 THEN [s1 EXCEPT !.err = "TypeOfDataUnsupported"]     \* "type_of_data needs to be set to supported value"
-         ELSE IF TypeOfDataValues[v.type_of_data + 1] = "PET"
-         THEN [s1 EXCEPT !.km = AddKeys(s1.km, << <<"PET STUDY (Emission data)", Entry("none", 0, "", "nothing")>>,
-                                                   <<"PET STUDY (Image data)", Entry("none", 0, "", "nothing")>>,
-                                                   <<"PET STUDY (General)", Entry("none", 0, "", "nothing")>>,
-                                                   <<"PET data type", EnumEntry("PET_data_type", "set", PETDataTypeValues)>>,
-                                                   <<"process status", Entry("none", 0, "", "nothing")>>,
-                                                   <<"IMAGE DATA DESCRIPTION", Entry("none", 0, "", "nothing")>>,
-                                                   <<"data offset in bytes", Entry("ulong", 1, "data_offset", "set")>> >>)]
-         ELSE [s1 EXCEPT !.vars.unmodelled = TRUE]                                    \* other kinds of data: not modelled
-    [] e.proc = "set_version_specific_keys" ->
-         IF v.version_of_keys = "STIR3.0"
-         THEN [s1 EXCEPT !.km = AddKeys(s1.km, << <<"energy window lower level", Entry("double", 0, "junk", "set")>>,
-                                                   <<"energy window upper level", Entry("double", 0, "junk", "set")>> >>)]
-         ELSE s1
-    [] e.proc = "set_imaging_modality" ->
-         IF Standardise(v.imaging_modality) \in {"nm", "nucmed", "spect"} THEN [s1 EXCEPT !.vars.unmodelled = TRUE] ELSE s1   \* SPECT reader: not modelled
-    [] e.proc = "set_siemens" -> [s1 EXCEPT !.vars.unmodelled = TRUE]                  \* Siemens reader: not modelled
-    [] e.proc = "set_unmodelled" -> [s1 EXCEPT !.vars.unmodelled = TRUE]
-    [] e.proc = "resize_segments_and_set" ->
-         \* "find_storage_order returns true if already found (or error)"
-         LET s2 == IF v.num_segments < 0 THEN FindStorageOrder(s1) ELSE s1
-             n == s2.vars.num_segments
-             s3 == IF s2.err # NoErr THEN s2
-                   ELSE IF v.num_segments < 0 /\ s2.vars.order_found
-                   THEN (IF ResizeErr(n) # NoErr THEN [s2 EXCEPT !.err = ResizeErr(n)]
-                         ELSE [s2 EXCEPT !.vars.min_ring_difference = Resize(s2.vars.min_ring_difference, n, 0),
-                                         !.vars.max_ring_difference = Resize(s2.vars.max_ring_difference, n, 0)])
-                   ELSE s2 IN
-         IF s3.err # NoErr THEN s3 ELSE IF s3.vars.num_segments >= 0 THEN SetVar(s3, e, p) ELSE s3
-    [] OTHER -> s1
-ApplyHook(st, e, p) == With(IF e.proc = "resize_segments_and_set" THEN st ELSE SetVar(st, e, p), LAMBDA s1 : ApplyHook1(s1, e, p))
-
-(* ------------------------------ the machine ------------------------------ *)
-\* process_key for one logical line: map the (alias-resolved, standardised) keyword, read the value
-\* according to the entry's type, call the entry's processing function.
-ProcessP(st, p) ==
-  LET k == Resolve(st.al, p.kw) IN
-  IF k \notin DOMAIN st.km THEN st            \* UnknownKey, Comment (';'), empty line: "do no processing of this key"
-  ELSE LET e == st.km[k] IN
-       CASE e.proc = "start" -> [st EXCEPT !.status = "parsing"]
-         [] e.proc = "stop" -> [st EXCEPT !.status = "end"]
-         [] e.proc = "nothing" -> st
-         [] e.proc = "set" -> SetVar(st, e, p)
-         [] OTHER -> ApplyHook(st, e, p)       \* a call-back of a derived class (it calls set_variable itself)
-Process(st, text) == With(Parsed(text), LAMBDA p : ProcessP(st, p))
-
-\* KeyParser::parse_header.  Result: verdict "accepted" | "rejected" | "error", the final state, the
-\* named case that ended the run, `more' (TRUE iff only the end of the input stopped the parser) and
-\* contAtEof (the input ended inside a continued line).
-RECURSIVE ParseLoop(_, _, _, _, _)
-LoopStep(s2, L, nl, r) ==
-  IF s2.err # NoErr THEN [verdict |-> "error", st |-> s2, why |-> s2.err, more |-> FALSE, contAtEof |-> r.contAtEof]
-  ELSE IF s2.status # "parsing" THEN [verdict |-> "accepted", st |-> s2, why |-> "StopKey", more |-> FALSE, contAtEof |-> r.contAtEof]
-  ELSE IF r.eof THEN [verdict |-> "accepted", st |-> [s2 EXCEPT !.status = "end"], why |-> "EofAccept", more |-> TRUE, contAtEof |-> r.contAtEof]   \* EofAccept: no stop key needed
-  ELSE ParseLoop(s2, L, nl, r.next, r.eof)
-LoopRead(st, L, nl, r) ==
-  IF r.early THEN [verdict |-> "accepted", st |-> [st EXCEPT !.status = "end"], why |-> "EarlyEof", more |-> TRUE, contAtEof |-> FALSE]
-  ELSE With(Process(st, r.line), LAMBDA s2 : LoopStep(s2, L, nl, r))
-ParseLoop(st, L, nl, i, eof) == With(NextMeaningful(L, nl, i, eof), LAMBDA r : LoopRead(st, L, nl, r))
-FirstStep(s1, L, nl, r) ==
-  IF s1.err # NoErr THEN [verdict |-> "error", st |-> s1, why |-> s1.err, more |-> FALSE, contAtEof |-> r.contAtEof]
-  ELSE IF s1.status # "parsing"
-       THEN [verdict |-> "rejected", st |-> s1, why |-> "NoStartKey", more |-> r.phantom, contAtEof |-> r.contAtEof]   \* "required first keyword not found"
-  ELSE ParseLoop(s1, L, nl, r.next, r.eof)
-FirstRead(st0, L, nl, r) ==
-  IF r.early THEN [verdict |-> "rejected", st |-> st0, why |-> "NoInput", more |-> TRUE, contAtEof |-> FALSE]
-  ELSE With(Process(st0, r.line), LAMBDA s1 : FirstStep(s1, L, nl, r))    \* FirstLineBeforeStart: the first line is processed whatever it is
-ParseHeader(st0, L, nl) == With(NextMeaningful(L, nl, 1, FALSE), LAMBDA r : FirstRead(st0, L, nl, r))
-
-\* join physical lines into the text handed to the parser
-RECURSIVE JoinLines(_, _)
-JoinLines(L, nl) == IF Len(L) = 0 THEN "" ELSE IF Len(L) = 1 THEN L[1] \o (IF nl THEN "\n" ELSE "")
-                    ELSE L[1] \o "\n" \o JoinLines(Tail(L), nl)
-
-(* ------------- the fixed key map of the replay driver (part a) ----------- *)
-TestKM == KM(<< <<"Start Test", Entry("none", 0, "", "start")>>,
-                <<"scalar int", Entry("int", 0, "i", "set")>>,
-                <<"str key", Entry("string", 0, "s", "set")>>,
-                <<"flag", Entry("bool", 0, "flag", "set")>>,
-                <<"list key", Entry("ilist", 0, "list", "set")>>,
-                <<"vec key", Entry("int", 1, "vec", "set")>>,
-                <<"vlist key", Entry("ilist", 1, "vlist", "set")>>,
-                <<"enum key", EnumEntry("en", "set", <<"alpha", "Beta Gamma">>)>>,
-                <<"ignored key", Entry("none", 0, "", "nothing")>>,
-                <<"End Test", Entry("none", 0, "", "stop")>> >>)
-TestAlias == [k \in {"old int", "old vec"} |-> IF k = "old int" THEN "scalar int" ELSE "vec key"]
-TestVars == [i |-> -7, s |-> "init", flag |-> FALSE, list |-> <<9>>, vec |-> <<0, 0, 0>>, vlist |-> << <<>>, <<>> >>, en |-> 0]
-TestInit == NewState(TestKM, TestAlias, TestVars)
-TestRun(L, nl) == ParseHeader(TestInit, L, nl)
 (* ------------------ the Interfile headers (part b of C17) ----------------- *)
 \* Key maps of InterfileImageHeader and InterfilePDFSHeader (InterfileHeader.cxx constructors).
 \* Variables whose value plays no role for the shape of the data are collected in `junk'.
@@ -518,7 +526,6 @@ ImageKM == KM(CommonKeys \o <<
   <<"number of image data types", Entry("int", 0, "num_image_data_types", "read_image_data_types")>>,
   <<"index nesting level", J("slist")>>,
   <<"image data type description", Entry("string", 1, "image_data_type_description", "set")>> >>)
-Merge(f, g) == [k \in DOMAIN f \cup DOMAIN g |-> IF k \in DOMAIN g THEN g[k] ELSE f[k]]
 NoAlias == [k \in {} |-> ""]
 ImageInit == NewState(ImageKM, NoAlias, Merge(CommonVars, [first_pixel_offsets |-> <<>>, image_data_type_description |-> <<"">>]))
 PDFSKM == KM(CommonKeys \o <<
@@ -568,7 +575,8 @@ Fits4(x, y, z, t, bpp, offset, len) ==
 RECURSIVE SumSeq(_)
 SumSeq(q) == IF Len(q) = 0 THEN 0 ELSE (IF q[1] > 1000000 THEN 1000000 ELSE q[1]) + SumSeq(Tail(q))
 
-\* What the image readers must do with a header (cfg: name and length of the data file that exists):
+\* What the image readers must do with a header whose parse ended as r = ParseHeader(ImageInit, ..)
+\* (cfg: name and length of the data file that exists):
 \* [k |-> "accept", x, y, z] | [k |-> "reject"] | [k |-> "any"] (outside the modelled part: anything but a crash)
 ImageJudge(r, cfg) ==
   LET v == r.st.vars IN
@@ -589,7 +597,6 @@ ImageJudge(r, cfg) ==
 
 \* Projection data: the scanner / ProjDataInfo consistency checks are not modelled, so a header that
 \* passes the modelled checks MAY be accepted; if it is, the object must have the shape the header announces.
-ImageExpected(L, nl, cfg) == With(ParseHeader(ImageInit, L, nl), LAMBDA r : ImageJudge(r, cfg))
 PDFSJudge(r, cfg) ==
   LET v == r.st.vars IN
   IF r.verdict # "accepted" THEN [k |-> "reject", why |-> r.why]
@@ -605,7 +612,6 @@ PDFSJudge(r, cfg) ==
         tof |-> v.num_timing_poss,
         fits |-> /\ Len(v.data_offset) >= 1 /\ ~v.data_offset[1].big /\ TypeValid(v.number_format, v.bytes_per_pixel)
                  /\ Fits4(v.num_bins, v.num_views, SumSeq(v.num_rings_per_segment), v.num_timing_poss, v.bytes_per_pixel, v.data_offset[1].n, cfg.datalen)]
-PDFSExpected(L, nl, cfg) == With(ParseHeader(PDFSInit, L, nl), LAMBDA r : PDFSJudge(r, cfg))
 \* the part of the final variables that determines what a reader does (everything but `junk')
 Relevant(v) == [k \in DOMAIN v \ {"junk"} |-> v[k]]
 =============================================================================
